@@ -39,7 +39,7 @@ Proof. exact refs_resolved_thm. Qed.
 
 (* ... and redirected to the retained region: the body keeps its skeleton (kinds, ids, timing, text) and every region
    reference is mapped by one function f of the region id; f leaves remaining regions alone and sends every region to a
-   remaining region whose timing the fingerprint deems equal (begin None = 0; end 0 = unbounded: finding lcd-region-end-zero) *)
+   remaining region of equal timing (begin None = 0, equal ends; since fix c0beb1f an end of 0 is no longer "unbounded") *)
 Theorem C16_redirected : forall c d d',
   lcd c d = Ok d' -> regions_have_ids d -> NoDup (rids (d_regions d)) -> refs_in_doc d ->
   exists f, body_mapped f d d' /\ alias_ok f d d'.
@@ -49,31 +49,29 @@ Proof. exact redirected_thm. Qed.
 Theorem C16_idempotent : forall c d d', lcd c d = Ok d' -> region_keys_unique d -> c_sa c < 50 -> lcd c d' = Ok d'.
 Proof. exact idem_thm. Qed.
 
-(* the filter succeeds.
-   Full statement (false: Findings/C16.v C16_total_refuted_position / _no_body, findings lcd-position, lcd-bg-no-body):
+(* the filter succeeds (since fix a7b547e also with bg_color on a document without body).
+   Full statement (false: Findings/C16.v C16_total_refuted_position, finding lcd-position):
      forall c d, lcd_typed d = true -> exists d', lcd c d = Ok d'.
-   Partial: no region carries tts:position with an extent that is not already in rh/rw, and bg_color is not configured
-   for a document without body. *)
-Theorem C16_total_partial : forall c d, lcd_typed d = true -> trig_total c d = false -> exists d', lcd c d = Ok d'.
+   Partial: no region carries tts:position with an extent that is not already in rh/rw. *)
+Theorem C16_total_partial : forall c d, lcd_typed d = true -> trig_position d = false -> exists d', lcd c d = Ok d'.
 Proof. exact total_partial_thm. Qed.
 
 (* text timeline: at every time the visible leaves — TTML2 leaf specification of Spec/IsdSpec.v (C01), each leaf tagged with
    the xml:id of its paragraph — are the same multiset before and after the filter.
-   Full statement (false: Findings/C16.v C16_timeline_refuted_nested / _end_zero, findings lcd-nested-region-conflict,
-   lcd-region-end-zero):
+   Full statement (false: Findings/C16.v C16_timeline_refuted_nested, finding lcd-nested-region-conflict):
      forall c d d' t, lcd c d = Ok d' -> regions_have_ids d -> NoDup (rids (d_regions d)) -> refs_in_doc d ->
        no_hiding_b d = true -> timeline_at d d' t.
-   Partial: no region has end = 0 and no element carries a region attribute below an ancestor associated with another
-   region that the filter merges with it. *)
+   Partial: no element carries a region attribute below an ancestor associated with another region that the filter merges
+   with it. *)
 Theorem C16_timeline_partial : forall c d d' t,
   lcd c d = Ok d' -> regions_have_ids d -> NoDup (rids (d_regions d)) -> refs_in_doc d ->
-  no_hiding_b d = true -> trig_end_zero d = false -> trig_nested c d = false ->
+  no_hiding_b d = true -> trig_nested c d = false ->
   timeline_at d d' t.
 Proof. exact timeline_thm. Qed.
 (* the same without the tags: the lists C01 proves a snapshot shows, region by region *)
 Theorem C16_timeline_leaves_partial : forall c d d' t,
   lcd c d = Ok d' -> regions_have_ids d -> NoDup (rids (d_regions d)) -> refs_in_doc d ->
-  no_hiding_b d = true -> trig_end_zero d = false -> trig_nested c d = false ->
+  no_hiding_b d = true -> trig_nested c d = false ->
   Permutation (all_leaves_spec d t) (all_leaves_spec d' t).
 Proof. exact timeline_leaves_thm. Qed.
 
@@ -90,8 +88,8 @@ Definition ex_doc : doc :=
         [] 15 32 1080 1920 None None [].
 Definition ex_cfg : lcd_cfg := mkCfg 10 false (Some 4294967295) None.
 Example C16_example :
-  lcd_typed ex_doc = true /\ trig_total ex_cfg ex_doc = false /\ trig_position_content ex_doc = false /\
-  no_hiding_b ex_doc = true /\ trig_end_zero ex_doc = false /\ trig_nested ex_cfg ex_doc = false /\
+  lcd_typed ex_doc = true /\ trig_position ex_doc = false /\ trig_position_content ex_doc = false /\
+  no_hiding_b ex_doc = true /\ trig_nested ex_cfg ex_doc = false /\
   region_keys_unique ex_doc /\ regions_have_ids ex_doc /\ NoDup (rids (d_regions ex_doc)) /\ refs_in_doc ex_doc /\
   exists d', lcd ex_cfg ex_doc = Ok d' /\ Z.of_nat (length (d_regions d')) = 1 /\
              visible ex_doc (inject_Z 2) = [(Some [112], LText [104; 105])] /\ visible d' (inject_Z 2) = [(Some [112], LText [104; 105])].
@@ -105,7 +103,16 @@ Proof.
   eexists. split; [vm_compute; reflexivity|]. split; [reflexivity|]. split; vm_compute; reflexivity.
 Qed.
 
+(* the two repaired defects (fixed: a7b547e, c0beb1f) on their old witnesses: bg_color on a document without body succeeds;
+   a region with end = 0 is no longer merged with an always-active one *)
+Example C16_fixed_witnesses :
+  (exists d', lcd (mkCfg 10 false None (Some 4278190335)) (mkDoc [] None [] 15 32 1080 1920 None None []) = Ok d') /\
+  (exists d', lcd (mkCfg 10 false None None)
+                  (mkDoc [Elem (mkAttrs KRegion (Some [114; 48]) None (Some 0%Q) None [] [] false [] []) []; ex_region [114; 49] []]
+                         None [] 15 32 1080 1920 None None []) = Ok d' /\ Z.of_nat (length (d_regions d')) = 2).
+Proof. split; eexists; [vm_compute; reflexivity | split; [vm_compute; reflexivity | reflexivity]]. Qed.
+
 Print Assumptions C16_no_anim.  Print Assumptions C16_safe_area.  Print Assumptions C16_whitelist_partial.
 Print Assumptions C16_merged.  Print Assumptions C16_refs_redirected.  Print Assumptions C16_redirected.  Print Assumptions C16_idempotent.
 Print Assumptions C16_total_partial.  Print Assumptions C16_timeline_partial.  Print Assumptions C16_timeline_leaves_partial.
-Print Assumptions C16_example.
+Print Assumptions C16_example.  Print Assumptions C16_fixed_witnesses.
